@@ -53,6 +53,21 @@ CHECKS = {
         "note": "Trusted: ast, the analyser, resolution of the auth plug-in factory, RFC 3414 constants. Not decided: cryptographic strength of HMAC-96; per-bit corruption coverage follows from the decided clauses plus HMAC and is not re-proved.",
         "technique": "inter-procedural must-pass-through with three-valued path simulation under assumption atoms (static)",
     },
+    "C10": {
+        "text": "Flag computation evaluated over the PDU class table against RFC 3411's confirmed class, provenance of every USM parameter from discovery / timing cache / credentials, encrypt-then-authenticate ordering and digest splice, auth plug-in table, RFC 3414 A.2 key-derivation constants (repetition factor evaluated for every password length 1..300), and canonical re-serialisation for the incoming digest: x690's length encoder is executed over its CFG at every length-form boundary. One genuine defect (length 127) is recorded as known finding.",
+        "note": "Trusted: ast, the analyser, RFC 3411/3412/3414 tables. Not decided: hash arithmetic; every total message length numerically beyond the length-form boundaries.",
+        "technique": "class-table evaluation + argument provenance + integer-state CFG execution of the length encoder + constant folding (static)",
+    },
+    "C11": {
+        "text": "With privacy credentials every path of the encryption step returns OctetString(ciphertext) with the plug-in's salt, the plaintext is read exactly once (as the data argument), failures raise; encrypt/decrypt arguments are bound by Protocol position to the localised key, engine id, boots, time, (message-borne) salt and data; the privacy key is the privacy password localised with the authentication hash.",
+        "note": "Trusted: ast, the analyser, the TPriv Protocol, RFC 3414. Not decided: properties of concrete ciphers; incoming flag / payload-type disagreement (ends in an exception, argued in DESIGN.md).",
+        "technique": "path simulation under credential atoms + argument-by-position provenance (static)",
+    },
+    "C12": {
+        "text": "Dominance of discovery over every read of the discovery cache, provenance of security and default context engine id, dependence of the engine time sent on a local clock read relative to the discovery moment (path-sensitive reaching definitions), usmStats report table, discovery id check. The absence of any re-synchronisation path after an agent reboot is a genuine defect recorded as known finding.",
+        "note": "Trusted: ast, the analyser, RFC 3414. Not decided: drift arithmetic between local and agent clock.",
+        "technique": "dominance over the CFG + path-sensitive reaching definitions + who-may-write the discovery cache (static)",
+    },
     "C13": {
         "text": "Release-on-all-exits of the per-attempt transport for every completion kind of the future (who-may-complete is closed), the retry loop executed over its CFG with a concrete counter for retries 1..4 and every reply/timeout pattern, and value-number identity of datagram, timeout and reply bytes.",
         "note": "Trusted: ast, the analyser, asyncio's documented contract (close/abort release the socket; connection_lost follows a closed transport). Not decided: real elapsed time, kernel behaviour, cancellation.",
